@@ -16,7 +16,8 @@ open WinTree (Id Win Req Change Tree)
 
 /-- The same state under another tally of the library's own references, the terminal object replaced. -/
 theorem SInv.reghost {gh gh' : Ghost} {st : St} (inv : SInv gh st) (tm : Obj)
-    (hw : ∀ (i : Nat) (w : Win), LiveW st.tree i w → w.refcount ≤ ((getX st i).appRefs : Int) + (gh'.win i : Int))
+    (hw : ∀ (i : Nat) (w : Win), LiveW st.tree i w → w.refcount ≤ ((getX st i).appRefs : Int) + (gh'.win i : Int) ∧
+      (i = 0 → ((getX st i).appRefs : Int) + (gh'.win i : Int) ≤ w.refcount))
     (h1 : tm.freed = false → (∃ r, LiveW st.tree 0 r) → tm.refcount = (tm.appRefs : Int) + (gh'.term : Int) + 1)
     (h2 : tm.freed = false → (¬ ∃ r, LiveW st.tree 0 r) → tm.refcount = (tm.appRefs : Int) + (gh'.term : Int) ∧ 1 ≤ tm.refcount)
     (h3 : tm.freed = true → (¬ ∃ r, LiveW st.tree 0 r) ∧ tm.appRefs = 0 ∧ gh'.term = 0) : SInv gh' { st with term := tm } := by
@@ -95,7 +96,8 @@ theorem termUnref_ghost {gh : Ghost} {st : St} (inv : SInv gh.addTerm st) :
 /-- The count of one live window changes together with what the library holds on it. -/
 theorem SInv.set_refcount {gh gh' : Ghost} {st : St} (inv : SInv gh st) {win : Nat} {ww : Win} (hw : LiveW st.tree win ww)
     (r : Int) (hterm : gh'.term = gh.term) (hoth : ∀ j, j ≠ win → gh'.win j = gh.win j)
-    (hup : r ≤ ((getX st win).appRefs : Int) + (gh'.win win : Int)) (hlo : 1 ≤ r) :
+    (hup : r ≤ ((getX st win).appRefs : Int) + (gh'.win win : Int) ∧
+      (win = 0 → ((getX st win).appRefs : Int) + (gh'.win win : Int) ≤ r)) (hlo : 1 ≤ r) :
     SInv gh' (setW st win { ww with refcount := r }) := by
   obtain ⟨inv', hrel⟩ := inv.tinv.set_refcount hw r
   have hl0 : LiveW (WinTree.set st.tree win { ww with refcount := r }) win { ww with refcount := r } :=
@@ -124,11 +126,11 @@ theorem SInv.set_refcount {gh gh' : Ghost} {st : St} (inv : SInv gh st) {win : N
 
 /-- A window nobody but the state's own tallies knows: the library's tally on a window that is not alive is void. -/
 theorem SInv.reghost_win {gh gh' : Ghost} {st : St} (inv : SInv gh st) (hterm : gh'.term = gh.term)
-    (hwin : ∀ (i : Nat) (w : Win), LiveW st.tree i w → gh.win i ≤ gh'.win i) : SInv gh' st := by
+    (hwin : ∀ (i : Nat) (w : Win), LiveW st.tree i w → gh'.win i = gh.win i) : SInv gh' st := by
   have := inv.reghost (gh' := gh') st.term (fun i w hl => by
       have h1 := inv.wref i w hl
-      have h2 : (gh.win i : Int) ≤ (gh'.win i : Int) := by exact_mod_cast hwin i w hl
-      omega)
+      rw [hwin i w hl]
+      exact h1)
     (fun hf hr => by rw [hterm]; exact inv.term_held hf (.inl hr))
     (fun hf hr => by rw [hterm]; exact inv.term_free hf (by rintro (h' | h'); exact hr h'; simp at h'))
     (fun hf => by rw [hterm]; exact ⟨fun hr => (inv.term_dead hf).1 (.inl hr), (inv.term_dead hf).2⟩)
@@ -179,9 +181,14 @@ theorem unrefW_ghost {cfg : Cfg} (R : Repaired cfg) {gh gh' : Ghost} {st : St} (
       split
       · rename_i h
         rw [← h.1]
-        show w.refcount ≤ (((getX st x).appRefs + 1 : Nat) : Int) + (gh'.win x : Int)
         rw [← h.1] at h1
-        omega
+        have hxe : ((gh'.win x : Nat) : Int) + 1 = (gh.win x : Int) := by exact_mod_cast hx
+        refine ⟨?_, fun h0 => ?_⟩
+        · show w.refcount ≤ (((getX st x).appRefs + 1 : Nat) : Int) + (gh'.win x : Int)
+          omega
+        · show (((getX st x).appRefs + 1 : Nat) : Int) + (gh'.win x : Int) ≤ w.refcount
+          have := h1.2 h0
+          omega
       · rename_i h
         have hne : i ≠ x := fun e => h ⟨e.symm, hxlt⟩
         rw [hoth i hne]; exact h1
@@ -1023,7 +1030,7 @@ theorem newTop_eq (cfg : Cfg) (lines cols : Int) (mock hasFd : Bool) :
     newTop cfg lines cols mock hasFd = .ok (freshTop lines cols mock hasFd, "ok") := rfl
 
 theorem freshTop_inv (lines cols : Int) (mock hasFd : Bool) : TopInv (freshTop lines cols mock hasFd) := by
-  refine ⟨⟨SInv.init lines cols rfl, keepingHandlers_init' lines cols, by show ([1, 2, 3] : List Int).Nodup; decide, fun _ _ _ => rfl⟩,
+  refine ⟨⟨SInv.init lines cols rfl rfl, keepingHandlers_init' lines cols, by show ([1, 2, 3] : List Int).Nodup; decide, fun _ _ _ => rfl⟩,
     swOk_fresh _ rfl rfl rfl rfl rfl, ⟨fun i hi => (by cases hi), fun i hi => (by cases hi)⟩, rfl⟩
 
 theorem newTerm_ok {tc : TCfg} (top : Top) (lines cols : Int) (mock : Bool) :
@@ -1057,10 +1064,11 @@ theorem newtop_ok {tc : TCfg} (top : Top) (lines cols : Int) :
   let ft := freshTop lines cols false true
   let w0 : Win := { rect := ⟨0, 0, lines, cols⟩, isRoot := true }
   have hl : LiveW ft.st.tree 0 w0 := ⟨rfl, rfl⟩
-  have inv0 : SInv Ghost.none ft.st := SInv.init lines cols rfl
+  have inv0 : SInv Ghost.none ft.st := SInv.init lines cols rfl rfl
   have inv1 : SInv rootGhost (setW ft.st 0 { w0 with refcount := w0.refcount + 1 }) :=
     inv0.set_refcount hl (w0.refcount + 1) rfl (fun j hj => by simp [rootGhost, hj])
-      (by show (1 : Int) + 1 ≤ ((1 : Nat) : Int) + ((1 : Nat) : Int); decide) (by show (1 : Int) ≤ 1 + 1; decide)
+      ⟨by show (1 : Int) + 1 ≤ ((1 : Nat) : Int) + ((1 : Nat) : Int); decide,
+       fun _ => by show ((1 : Nat) : Int) + ((1 : Nat) : Int) ≤ (1 : Int) + 1; decide⟩ (by show (1 : Int) ≤ 1 + 1; decide)
   have inv2 := termRefS_ok inv1 rfl
   rw [rootGhost_addTerm] at inv2
   refine ⟨{ ft with st := termRefS (setW ft.st 0 { w0 with refcount := w0.refcount + 1 }), inst := some {} }, "ok", rfl, ?_⟩
